@@ -68,6 +68,8 @@ FIXED += [
 FIXED += [
     ("D21", ["C18"], "fix: reconnecting client starts no attempt once it is closed or its context is done", "attempt-after-close",
      "Close before Subscribe, then Subscribe over a transport that does not watch its context: one full attempt ran and its whole stream was delivered after Close had returned"),
+    ("D22", ["C03"], "fix: delete fan-out keeps prefix elements given in the deprecated string encoding", "oracle",
+     "update with prefix element:[a b] (deprecated strings) and path elem:[c], then delete [a]: the leaf a/b/c is removed but the feed announces a delete of [c]"),
 ]
 OPEN = [
     dict(id="D15", properties=["C19"], status="open", **{"class": "query-elem-edge-slash"}, part="query",
